@@ -778,7 +778,9 @@ pub(crate) fn solve_expression(
                                     }
                                 }
                                 if res != SolverResult::True {
-                                    return res;
+                                    // NOTE: As for an unmerged block, no element satisfying
+                                    // it is false, never missing.
+                                    return SolverResult::False;
                                 }
                             }
                             return SolverResult::True;
@@ -818,7 +820,9 @@ pub(crate) fn solve_expression(
                                     }
                                 }
                                 if res != SolverResult::True {
-                                    return res;
+                                    // NOTE: As for an unmerged block, no element satisfying
+                                    // it is false, never missing.
+                                    return SolverResult::False;
                                 }
                             }
                             return SolverResult::True;
